@@ -350,6 +350,16 @@ def deserialize (D : Defects) (k : Kind) (buf : Bytes) (cursor : Nat) : Except E
 
 /-! ### IEEE 754 binary32 / binary64 on bit patterns -/
 
+/-- `m · 2^sh` rounded to the nearest integer, ties to even -/
+def roundShift (m : Nat) (sh : Int) : Nat :=
+  if 0 ≤ sh then m * 2 ^ sh.toNat
+  else
+    let s := (-sh).toNat
+    let t := m / 2 ^ s
+    let r := m % 2 ^ s
+    let half := 2 ^ (s - 1)
+    if r > half ∨ (r = half ∧ t % 2 = 1) then t + 1 else t
+
 structure FloatFmt where
   ebits : Nat
   mbits : Nat
@@ -386,20 +396,12 @@ def roundMag (m : Nat) (e : Int) : Nat :=
   if m = 0 then 0 else
   let E : Int := (m.log2 : Int) + e                       -- m·2^e ∈ [2^E, 2^(E+1))
   let emin : Int := 1 - (f.bias : Int)
-  let q : Int := max E emin - (f.mbits : Int)             -- exponent of the result's last place
-  let sh : Int := e - q
-  let M : Nat :=
-    if 0 ≤ sh then m * 2 ^ sh.toNat
-    else
-      let s := (-sh).toNat
-      let t := m / 2 ^ s
-      let r := m % 2 ^ s
-      let half := 2 ^ (s - 1)
-      if r > half ∨ (r = half ∧ t % 2 = 1) then t + 1 else t
-  -- exponent field k+1 with fraction M − 2^mbits (normal) or field 0 with fraction M (subnormal) are both
-  -- k·2^mbits + M; a carry out of the significand lands in the exponent by itself
-  let k : Nat := (max E emin + (f.bias : Int) - 1).toNat
-  min (k * 2 ^ f.mbits + M) f.infMag
+  let g : Int := max E emin                               -- the binade the result is rounded in (emin for subnormals)
+  -- significand in units of the last place 2^(g − mbits); exponent field k+1 with fraction M − 2^mbits (normal) or
+  -- field 0 with fraction M (subnormal) are both k·2^mbits + M; a carry out of the significand lands in the
+  -- exponent by itself
+  let k : Nat := (g + (f.bias : Int) - 1).toNat
+  min (k * 2 ^ f.mbits + roundShift m (e - (g - (f.mbits : Int)))) f.infMag
 
 end FloatFmt
 
